@@ -173,6 +173,15 @@ def run(ctx):
                 if got != base:
                     f = "result changes when the sources are rewritten: " + label
                     break
+        if f is None and len(srcs) >= 2 and not _fetch.has_nested_multiple(tree):
+            # merging in two steps (the first result serves as the master of the second merge) = merging at once
+            try:
+                w1 = m.fetch(sources=[freephil.parse(input_string=t) for t in srcs[:1]])
+                two = _fetch.dump(w1.fetch(sources=[freephil.parse(input_string=t) for t in srcs[1:]]).extract())
+                if two != base:
+                    f = "merging the sources in two steps (result of the first merge as master of the second) differs from merging them at once"
+            except (RuntimeError, freephil.Sorry):
+                pass
         if f:
             ctx.fail(case, f, finding=["D8"] if _fetch.has_nested_multiple(tree) and "rewritten" not in f else None)
         reqs.append(_fetch.fetch_req(mt, srcs))
@@ -180,6 +189,21 @@ def run(ctx):
         cases.append(case)
         if i % 200 == 0:
             ctx.sample({"master": mt, "sources": srcs, "extract": base})
+    # sources with $variables and an environment: result tree, unused list and extracted values against the model
+    for i in range(ctx.scale(300, 8000, 1500)):
+        if ctx.time_left() < 30:
+            break
+        tree, mt, srcs = _fetch.gen(rng, nested=False, n_sources=rng.choice([1, 2, 3]), variables=True)
+        env = _fetch.gen_env(rng)
+        m = freephil.parse(input_string=mt)
+        ss = [freephil.parse(input_string=s) for s in srcs]
+        ctx.case((mt, tuple(srcs), tuple(sorted(env.items()))), nontrivial=any("$" in s for s in srcs))
+        ctx.count("with_variables")
+        with _fetch.env_as(env):
+            ia = _fetch.fetch_impl(m, ss)
+        cases.append({"master": mt, "sources": srcs, "env": env})
+        reqs.append(_fetch.fetch_req(mt, srcs, env=env))
+        impls.append(ia)
     if reqs and ctx.mode != "impl-only":
         ctx.corr("fetch", cases, reqs, impls)
 
